@@ -20,6 +20,9 @@ def plan(ctx):
         obs.append(Obligation(f"list.{fn}", "xh", "c03", "mut_list", param={"fn": fn}, timeout=T,
                               bounds="list length symbolic and unbounded (>= 1), index and value unbounded ints",
                               desc=f"FUNCTIONS[{fn!r}] on a list of arbitrary length: ParserError and unchanged iff len >= 10000; else grows by <= 1"))
+        obs.append(Obligation(f"sized.{fn}", "xh", "c03", "mut_sized", param={"fn": fn}, timeout=T,
+                              bounds="list abstracted to its LENGTH (unbounded symbolic int), index and value unbounded ints; replay on a real list",
+                              desc=f"FUNCTIONS[{fn!r}]: ParserError and unchanged length iff len >= 10000 (every index, incl. i >= len and negatives)"))
         obs.append(Obligation(f"list0.{fn}", "xh", "c03", "mut_list_empty", param={"fn": fn}, timeout=T,
                               bounds="empty list, index -3..3", desc="same on the empty list (excluded from the obligation above by its witness index)"))
     for fn in ("__setitem__", "__setitem_with_op__"):
